@@ -255,7 +255,7 @@ func traceBackup(t *testing.T, o opts) {
 		select {
 		case res := <-done:
 			emit("%s\t%s", head, res)
-		case <-time.After(8 * time.Second): // real time: a busy loop freezes the virtual clock
+		case <-time.After(45 * time.Second): // real time: a busy loop freezes the virtual clock (generous: a loaded machine must not look like one)
 			emit("%s\tups=\tfiles=\texit=-1\tspins=1\tfinal=-", head)
 			out.Flush()
 			os.RemoveAll(dir)
